@@ -502,6 +502,21 @@ func (em *emitter) emitAssignmentNode(node *ast.Assignment) {
 		return
 	}
 
+	// operand emits an operand of an expression on the left side and returns
+	// its register. In a tuple assignment the operands are evaluated before
+	// any assignment is made, so an operand that is a local variable is
+	// copied into a new register.
+	operand := func(expr ast.Expression, typ reflect.Type) int8 {
+		if len(node.Lhs) > 1 {
+			if ident, ok := expr.(*ast.Identifier); ok && em.fb.declaredInFunc(ident.Name) {
+				reg := em.fb.newRegister(typ.Kind())
+				em.emitExprR(expr, typ, reg)
+				return reg
+			}
+		}
+		return em.emitExpr(expr, typ)
+	}
+
 	// Emit an assignment.
 	addresses := make([]address, len(node.Lhs))
 	for i, v := range node.Lhs {
@@ -529,12 +544,17 @@ func (em *emitter) emitAssignmentNode(node *ast.Assignment) {
 
 		case *ast.Index:
 			exprType := em.typ(v.Expr)
-			expr := em.emitExpr(v.Expr, exprType)
+			var expr int8
+			if exprType.Kind() == reflect.Array {
+				expr = em.emitExpr(v.Expr, exprType)
+			} else {
+				expr = operand(v.Expr, exprType)
+			}
 			indexType := intType
 			if exprType.Kind() == reflect.Map {
 				indexType = exprType.Key()
 			}
-			index := em.emitExpr(v.Index, indexType)
+			index := operand(v.Index, indexType)
 			switch exprType.Kind() {
 			case reflect.Map:
 				if nonLocalMap, ok := em.varStore.nonLocalVarIndex(v.Expr); ok {
@@ -559,7 +579,12 @@ func (em *emitter) emitAssignmentNode(node *ast.Assignment) {
 				expr = op.Expr
 			}
 			typ := em.typ(expr)
-			reg := em.emitExpr(expr, typ)
+			var reg int8
+			if typ.Kind() == reflect.Pointer {
+				reg = operand(expr, typ)
+			} else {
+				reg = em.emitExpr(expr, typ)
+			}
 			var field reflect.StructField
 			if typ.Kind() == reflect.Pointer {
 				field, _ = typ.Elem().FieldByName(v.Ident)
@@ -577,7 +602,7 @@ func (em *emitter) emitAssignmentNode(node *ast.Assignment) {
 				panic(internalError("unexpected operator %s", v.Operator()))
 			}
 			typ := em.typ(v.Expr)
-			reg := em.emitExpr(v.Expr, typ)
+			reg := operand(v.Expr, typ)
 			addresses[i] = em.addressPtrIndirect(reg, typ, pos, node.Type)
 		default:
 			panic(internalError("unexpected"))
